@@ -305,6 +305,10 @@ def adjust_intervals(
     new_labels : list
         List of labels for ``new_labels``
     """
+    # Work on a copy so that the caller's label list is never modified
+    if labels is not None:
+        labels = list(labels)
+
     # Remove any intervals lying completely outside the specified range
     # (including those which only touch it at t_min or t_max)
     if intervals.size > 0:
@@ -401,6 +405,10 @@ def adjust_events(events, labels=None, t_min=0.0, t_max=None, label_prefix="__")
         Event times corrected to the given range.
 
     """
+    # Work on a copy so that the caller's label list is never modified
+    if labels is not None:
+        labels = list(labels)
+
     if t_min is not None:
         first_idx = np.argwhere(events >= t_min)
 
